@@ -386,6 +386,7 @@ func genC19(seed uint64, tier Tier) *Case {
 	c.Knobs = g.knobs()
 	c.Knobs.TotalSize = 1 << 40
 	c.Knobs.FracSize = 1 << 30
+	g.oddTokens = g.r.Bool(0.3)
 	c.Steps = append(c.Steps, Step{Kind: "start"})
 	nfrac := g.r.Range(2, 5)
 	for i := 0; i < nfrac; i++ {
@@ -409,7 +410,10 @@ func genC19(seed uint64, tier Tier) *Case {
 		s := g.search(true)
 		s.Size = math.MaxInt32
 		s.WithTotal = false
-		reqs = append(reqs, &AsyncReq{ID: fmt.Sprintf("%08x-0000-4000-8000-%012x", uint32(seed), i+1), S: s})
+		// ids as the proxy makes them: random version-4 UUIDs
+		a, b := g.r.Uint64(), g.r.Uint64()
+		id := fmt.Sprintf("%08x-%04x-4%03x-%04x-%012x", uint32(a>>32), uint16(a>>16), uint16(a)&0xfff, 0x8000|uint16(b>>48)&0x3fff, b&0xffffffffffff)
+		reqs = append(reqs, &AsyncReq{ID: id, S: s})
 	}
 	armed := g.r.Bool(0.8)
 	if armed {
@@ -551,6 +555,11 @@ func genC14(seed uint64, tier Tier) *Case {
 					ts = (g.nowMs-uint64(g.r.Range(1, 20*hour)))/60000*60000 + uint64(g.r.Intn(2))*59999 // on bucket borders
 				default:
 					ts = g.nowMs - uint64(g.r.Intn(5000))
+				}
+				if len(op.Docs) > 0 && g.r.Bool(0.25) {
+					// same millisecond as the previous document: runs of equal timestamps cross ID-block
+					// and bucket borders
+					ts = op.Docs[len(op.Docs)-1].MID
 				}
 				op.Docs = append(op.Docs, g.doc(ts))
 			}
